@@ -342,7 +342,7 @@ Lemma compile_defs_total : forall p defs ul front back,
 Proof.
   intros p. induction defs as [|d r IH]; intros ul front back Hg; simpl; [eauto|].
   pose proof (Hg d (or_introl eq_refl)) as Hd. unfold def_tyguard in Hd.
-  apply andb_prop in Hd. destruct Hd as [Hd Hret]. apply andb_prop in Hd. destruct Hd as [Hd _].
+  apply andb_prop in Hd. destruct Hd as [Hd Hret].
   apply andb_prop in Hd. destruct Hd as [_ Htg].
   assert (Hbty : exists bty, fterm_type (fdbody d) = Some bty).
   { destruct (String.eqb (fdname d) "main"); [|apply andb_prop in Hret; destruct Hret as [Hret _]];
